@@ -830,16 +830,22 @@ def with_blocks_and_contextvar_proxies(L, rec):
             ctx[k].run(setattr, ns, "cm", cms[k])
         entered = set()
         got = []
+        own = {"A": [], "B": []}  # what each context has done so far = what its own object must have seen so far
+        step_ok = True
         for who in order:
             if who not in entered:
                 got.append((who, "enter", ctx[who].run(lambda: proxy.__enter__())))
                 entered.add(who)
+                own[who].append("enter")
             else:
                 got.append((who, "exit", ctx[who].run(lambda: proxy.__exit__(None, None, None))))
+                own[who].append("exit")
+            # checked after every step: two misdirected exits cancel out in the final tally
+            step_ok = step_ok and all(cms[k].events == own[k] for k in cms)
         rec.case()
         rec.nontrivial(("with-through-proxy", order))
         rec.observe("with_blocks_through_one_proxy")
-        ok = all(cms[k].events == ["enter", "exit"] for k in cms) and [g for g in got if g[1] == "enter"] == [(w, "enter", w) for w in dict.fromkeys(order)]
+        ok = step_ok and [g for g in got if g[1] == "enter"] == [(w, "enter", w) for w in dict.fromkeys(order)]
         if not ok:
             rec.violation("C18/PROXY-resolves-to-a-sibling-contexts-object", f"'with proxy:' in two contexts in the order {order!r}: calls returned {got!r}; A's object saw {cms['A'].events!r}, B's {cms['B'].events!r}",
                           {"scenario": "with-through-proxy", "order": list(order)}, monitor="proxy")
